@@ -276,6 +276,10 @@ class FSM(object):
             else:
                 self.connect_retry_timer.cancel()
                 self.idle_hold_timer.cancel()
+                # every connection offers the configured timers: nothing negotiated in an
+                # earlier session may leak into the OPEN message of this one
+                self.hold_time = CONF.time.hold_time
+                self.keep_alive_time = CONF.time.keep_alive_time
                 self.protocol.send_open()
                 self.hold_timer.reset(self.large_hold_time)
                 self.state = bgp_cons.ST_OPENSENT
